@@ -10,6 +10,7 @@ mod pool;
 mod mime;
 mod transports;
 mod dkim;
+mod tls;
 mod oracles;
 
 pub fn hex(b: &[u8]) -> String {
@@ -71,6 +72,11 @@ fn main() {
             if std::env::var("VERIF_PANIC_MSG").is_err() { std::panic::set_hook(Box::new(|_| {})); }
             let threads = args.get(2).and_then(|s| s.parse().ok()).unwrap_or(16);
             smtp::main_loop(threads);
+        }
+        "tls" => {
+            if std::env::var("VERIF_PANIC_MSG").is_err() { std::panic::set_hook(Box::new(|_| {})); }
+            let threads = args.get(2).and_then(|s| s.parse().ok()).unwrap_or(8);
+            tls::main_loop(threads);
         }
         "pool" => {
             if std::env::var("VERIF_PANIC_MSG").is_err() { std::panic::set_hook(Box::new(|_| {})); }
